@@ -31,6 +31,8 @@ CONFIGS2 = [
     (F(2), (F(2), F(2))),          # congested when both are active: half each
     (F(3), (F(2), F(4))),          # unequal shares 1 : 2
     (F(1), (None, F(1, 2))),       # default limit
+    (F(2), (F(4), F(1))),          # transfer 0 alone exceeds the pipe; transfer 1 may start later
+    (F(2), (F(8), None)),          # ... followed by a default-limit transfer
 ]
 CONFIGS3 = [
     (F(2), (F(1), F(1), F(1))),
@@ -90,12 +92,12 @@ def fluid_model(E, theta, limits, starts, vols, removed):
     return finish
 
 
-def fam_pipe(E, configs, fault_kinds, pmax=1, unbounded=False):
+def fam_pipe(E, configs, fault_kinds, pmax=1, unbounded=False, placements=True):
     n = len(configs[0][1])
     theta, limits = configs[E.pick('config', len(configs))]
     vols = [E.real('v%d' % i, 0, 60) for i in range(n)]
     starts = [E.const(0)] + [E.real('s%d' % i, 0, 30) for i in range(1, n)]
-    fault = Fault(E, 'f', fault_kinds, hi=60, pmax=pmax, real=True, placements=False)
+    fault = Fault(E, 'f', fault_kinds, hi=60, pmax=pmax, real=True, placements=placements)
     pipe = UnboundedPipe() if unbounded else Pipe(throughput=E.const(theta))
     log = Log()
 
@@ -167,7 +169,7 @@ FAMILIES = [
            thorough=dict(configs=CONFIGS2, fault_kinds=ALLF, pmax=2),
            reach=['none', 'cancel', 'interrupt', 'close', 'fault-hits-running-transfer',
                   'zero-volume'],
-           bounds='2 transfers, 4 configurations'),
+           bounds='2 transfers, 6 configurations, attacker before / after the victim'),
     Family('three', fam_pipe,
            quick=dict(configs=CONFIGS3[:2], fault_kinds=[Fault.NONE]),
            thorough=dict(configs=CONFIGS3, fault_kinds=[Fault.NONE, Fault.CANCEL]),
